@@ -110,6 +110,16 @@ def check(case, ctx):
     out = call(fresh)
     if ctx.returned(out, route="magnetic_field/fresh-object"):
         judge("magnetic_field/fresh-object", out.value)
+
+    def fresh_enu():
+        w = WMM(frame="ENU")
+        w.magnetic_field(lat, lon, h, date=d_arg)
+        return np.array([w.X, w.Y, w.Z], dtype=float)
+    out = call(fresh_enu)
+    if ctx.returned(out, clause="no-exception[frame=ENU]", route="magnetic_field/fresh-object"):
+        tol = TOL_NT if (abs(lat) <= 89.0 or abs(lat) == 90.0) else TOL_NEAR_POLE
+        ctx.le("frame='ENU': (X, Y, Z) = (east, north, up) of the same synthesis (nT)", float(np.abs(out.value - np.array([ref[1], ref[0], -ref[2]])).max()), tol,
+               {"lat": lat, "lon": lon, "got": out.value, "ref_ned": ref}, route="magnetic_field/fresh-object")
     # whole-number coordinates typed as int: the same place must give the same field
     li, lo_, hi_ = int(np.clip(round(lat), -89, 89)), int(round(lon)), int(round(h))
 
